@@ -39,6 +39,7 @@ func verifyFunc(P *Prog, f *ssa.Function, ct *Contract) (c *FnVC, err error) {
 		}
 	}()
 	c.run()
+	c.applySplits()
 	if len(c.errs) > 0 {
 		return c, fmt.Errorf("%s", strings.Join(c.errs, "\n"))
 	}
